@@ -107,6 +107,8 @@ class Evaluator:
                 continue
             if isinstance(st, ast.Return):
                 return self.expr(fi, st.value, env)
+            if isinstance(st, ast.AnnAssign) and st.value is not None:
+                st = ast.copy_location(ast.Assign(targets=[st.target], value=st.value), st)
             if isinstance(st, ast.Assign) and len(st.targets) == 1:
                 v = self.expr(fi, st.value, env)
                 self.assign(st.targets[0], v, env)
@@ -140,6 +142,8 @@ class Evaluator:
         raise OrdUnknown(f"assignment target `{norm(t)}` with value {v} not understood")
 
     def test(self, fi, t, env) -> bool:
+        if isinstance(t, ast.Name) and isinstance(env.get(t.id), Scalar) and env[t.id].text in ("True", "False"):
+            return env[t.id].text == "True"
         # direction tests
         dir_names = {k for k, v in env.items() if isinstance(v, tuple) and v and v[0] == "DIR"}
         for dn in dir_names:
@@ -190,6 +194,8 @@ class Evaluator:
         if rev is not None:
             if isinstance(rev, ast.Constant):
                 r = bool(rev.value)
+            elif isinstance(rev, ast.Name) and isinstance(env.get(rev.id), Scalar) and env[rev.id].text in ("True", "False"):
+                r = env[rev.id].text == "True"
             else:
                 r = self.test(fi, rev, env)
         return "DESC" if r else "ASC"
@@ -217,6 +223,8 @@ class Evaluator:
             return self.subscript(fi, base, e.slice, env)
         if isinstance(e, ast.Call):
             return self.call(fi, e, env)
+        if isinstance(e, (ast.Compare, ast.BoolOp)) or (isinstance(e, ast.UnaryOp) and isinstance(e.op, ast.Not)):
+            return Scalar(repr(bool(self.test(fi, e, env))))       # a direction / None test bound to a local
         if isinstance(e, ast.BinOp) or isinstance(e, ast.UnaryOp):
             return Scalar(self.scalar_text(fi, e, env))
         raise OrdUnknown(f"{fi.name}: expression `{norm(e, 60)}` not understood")
